@@ -208,7 +208,17 @@ def run_tlc(spec, cfg, workdir, env=None, workers=4, timeout=1800, heap="8g",
             else:
                 hard_errors.append("\n".join(lines[i:i + 12]))
         elif ln.startswith('"') or ln.startswith("<<"):
+            # a long value is pretty-printed over several lines: join up to the balancing >>
+            depth = ln.count("<<") - ln.count(">>")
+            j = i
+            while depth > 0 and j + 1 < len(lines):
+                j += 1
+                ln += " " + lines[j].strip()
+                depth += lines[j].count("<<") - lines[j].count(">>")
+            if j > i:
+                ln = re.sub(r"<<\s+", "<<", re.sub(r"\s+>>", ">>", re.sub(r"\s+", " ", ln)))
             r.prints.append(ln)
+            i = j
         i += 1
     if hard_errors:
         sys.stderr.write(p.stdout[-8000:])
@@ -1054,6 +1064,9 @@ def c19(run):
     run.rec_leg("untrusted", ["untrusted"], verdict=["panic", "load-kind", "unknown-event"], heap="16g")
     run.mc_leg("mc_objformat", "MC_ObjFormat", "MC_ObjFormat3.cfg" if run.tier == "thorough" else "MC_ObjFormat.cfg", workers=16, timeout=3000)
     run.rec_leg("fmt", ["fmt"], spec="TV_Fmt", cfg="TV_Fmt.cfg", verdict=["panic", "unknown-event"])
+    # RP: every file of up to two chunks cut at every length, as enumerated by TLC, through the real reader
+    run.rp_rec_leg("rp_fmt", "MC_ObjFormat", "MC_ObjFormatRP.cfg", "fmt", "MC_ObjFormat_ops.ndjson", spec="TV_Fmt", cfg="TV_Fmt.cfg",
+                   verdict=["panic", "unknown-event"], workers=16)
     return run.finish(
         rule="inputs to BinaryFormat::deserialize and TextFormat::deserialize: random bytes/texts (with and without the magic "
              "header), byte- and line-level mutations of valid serializations (truncation, duplication, lengths, dividers, "
